@@ -13,6 +13,7 @@ Ltac tf_step :=
   | |- tfree _ (match ?x with _ => _ end) => destruct x
   | |- tfree _ (if ?b then _ else _) => destruct b
   | H : forall _, tfree _ _ |- tfree _ _ => apply H
+  | H : dl_ok _ ?t |- tfree _ (SetExpiry _ ?t _ _) => apply tf_setexp; [exact H|]
   | |- tfree _ (SetExpiry _ None _ _) => apply tf_setexp; [exact I|]
   | |- tfree _ (Now _) => fail 1
   | |- tfree _ (SetExpiry _ (Some _) _ _) => fail 1
@@ -209,7 +210,7 @@ Proof.
   apply tf_now; [done|]. intros now _. cbv zeta.
   destruct (negb _); [constructor|].
   destruct (_ =? _)%nat; [apply tf_setexp; [exact Habs|constructor]|].
-  constructor. intros cur. by apply tf_expire_with_option.
+  constructor. intros cur _. by apply tf_expire_with_option.
 Qed.
 
 (** GETEX: no option, PERSIST, or EXAT / PXAT with a deadline at or after the horizon. *)
